@@ -1129,11 +1129,13 @@ func first(a, _ []byte) []byte { return a }
 //@   opt kind $KIND
 //@   requires t != nil
 //@   ensures[pure] frame()
+//@   assigns nothing
 
 //@ func (*{alpha,unsigned,signed,float,compound,collation}SortedTree[K,V]).Backward
 //@   opt kind $KIND
 //@   requires t != nil
 //@   ensures[pure] frame()
+//@   assigns nothing
 
 //@ func (*alphaSortedTree[K,V]).Prefix
 //@   opt bind K=[]byte
@@ -1223,8 +1225,10 @@ func first(a, _ []byte) []byte { return a }
 //@   opt kind $KIND
 //@   requires t != nil
 //@   ensures[pure] frame()
+//@   assigns nothing
 
 //@ func (*{alpha,unsigned,signed,float,compound,collation}SortedTree[K,V]).BottomK
 //@   opt kind $KIND
 //@   requires t != nil
 //@   ensures[pure] frame()
+//@   assigns nothing
